@@ -194,6 +194,10 @@ func csvload(a []string) (res string) {
 				return finish("err:column")
 			case strings.Contains(err.Error(), "unsupported type"):
 				return finish("err:unsupported")
+			case strings.Contains(err.Error(), "read csv record"):
+				return finish("err:reader")
+			case strings.Contains(err.Error(), "time columns"):
+				return finish("err:time")
 			}
 			return finish("err:other")
 		}
